@@ -1008,6 +1008,43 @@ def check_sender(part: Part, proto: str, size: int):
         part.violation("sender-chunks", "Xfer.__init__:count", {"part": "sender", "size": size}, f"{n} chunks for {size} bytes, expected {exp_n}")
 
 
+def long_orders(n: int) -> List[Tuple[str, Tuple[int, ...]]]:
+    """Closed-form arrival orders for a transfer of MANY chunks (the exhaustive sequences stop at 4 chunks): every chunk j arriving last
+    (all others in order), reverse order, evens then odds, rotation by every k, and each of those followed by a duplicate of chunk 0 and of the
+    end-marked chunk.  Anything keyed on "how far behind / ahead of the newest chunk" (ack-ahead windows, stale-resend filters) is crossed."""
+    base: List[Tuple[str, Tuple[int, ...]]] = [("in-order", tuple(range(n))), ("reverse", tuple(reversed(range(n)))),
+                                              ("evens-odds", tuple(range(0, n, 2)) + tuple(range(1, n, 2)))]
+    for j in range(n):
+        base.append((f"late-{j}", tuple(i for i in range(n) if i != j) + (j,)))
+    for k in range(1, n):
+        base.append((f"rot-{k}", tuple(range(k, n)) + tuple(range(k))))
+    out = []
+    for name, seq in base:
+        out.append((name, seq))
+        out.append((name + "+dups", seq + (0, n - 1)))
+    return out
+
+
+def check_transfer_long(part: Part, mode: str, nchunks: int):
+    proto = mode.split("-")[0]
+    chunk = xfer_mod.MAX_CHUNK_SIZE if proto == "xfer" else TRANSFER_CHUNK
+    size = chunk * nchunks - (7 if proto == "xfer" else 3)     # nchunks chunks, the last one partial
+    wires, _problems = _wires_for(proto, size)
+    n = len(wires)
+    if n != nchunks:
+        raise RuntimeError(f"C20 long family: {size} bytes gave {n} chunks, wanted {nchunks}")
+    info = transfer_info_wire(size) if proto == "transfer" else None
+    for name, seq in long_orders(n):
+        part.count("evaluations")
+        part.count("long_histories")
+        part.count("arrivals", len(seq))
+        viol, obs = run_history(mode, size, wires, seq, info)
+        for v in viol:
+            part.violation(v["clause"], v["site"] + ":many-chunks", {"part": "transfer", "mode": mode, "size": size, "seq": list(seq)}, v["detail"])
+        part.outcome(("long", mode, name.split("-")[0], obs[1] if len(obs) > 1 else None))
+        part.mark_nontrivial(("transfer-long", mode, n, name))
+
+
 def check_transfer_block(part: Part, mode: str, size: int, first: Optional[Tuple[int, ...]], extra: int = 2):
     """All arrival sequences (length n+extra) of one (mode, payload size), optionally only those starting with the index
     tuple `first` (work split)."""
@@ -1485,6 +1522,8 @@ def _work(unit):
     elif kind == "transfer":
         mode, size, first, extra = payload
         check_transfer_block(part, mode, size, first, extra)
+    elif kind == "transfer-long":
+        check_transfer_long(part, *payload)
     elif kind == "e2e":
         for size in payload:
             part.count("evaluations")
@@ -1554,6 +1593,9 @@ def build_units(full: bool) -> List[Tuple[str, Any]]:
                     units.append(("transfer", (mode, size, first, extra)))
             else:
                 units.append(("transfer", (mode, size, None, extra)))
+    for mode in MODES:   # many chunks, closed-form orders (late chunk / reverse / rotations / interleaved, with duplicates)
+        for nchunks in ((12, 13, 24) if not full else (12, 13, 24, 40, 100)):
+            units.append(("transfer-long", (mode, nchunks)))
     e2e = set(transfer_sizes("xfer")) | {xfer_mod.MAX_CHUNK_SIZE - 1, xfer_mod.MAX_CHUNK_SIZE, xfer_mod.MAX_CHUNK_SIZE + 1}
     units.append(("e2e", sorted(e2e - {0})))   # an empty AssetData block *means* "fetch by xfer": a 0-byte inline upload is not expressible
     return units
@@ -1564,7 +1606,7 @@ def run(run: Run):
     _FULL = full = run.tier != "quick"
     units = build_units(full)
     # heavy units first so the pool drains evenly; results are merged in a fixed order regardless
-    order = sorted(range(len(units)), key=lambda i: (0 if units[i][0] in ("transfer", "anim-grid", "mesh-grid") else 1, i))
+    order = sorted(range(len(units)), key=lambda i: (0 if units[i][0] in ("transfer", "transfer-long", "anim-grid", "mesh-grid") else 1, i))
     results = pmap(_work, [units[i] for i in order], run.jobs, chunksize=1)
     for d in results:
         run.merge(d)
